@@ -29,6 +29,10 @@ def judge_json(d, col, job):
         return 0
     for n, (ln, e) in enumerate(zip(lines, exp)):
         suffix = ":placeholder-followed-by-escaped-brace" if e.get("defect_class") else ""
+        if e.get("needs_escaping"):
+            # a value contains a quote or a backslash (e.g. a hex-escaped byte): the line is only promised to parse
+            # "whenever the values need no escaping"; it still has to be exactly one line (alignment above)
+            continue
         try:
             pairs = json.loads(ln, object_pairs_hook=list)
         except ValueError as err:
@@ -83,8 +87,8 @@ def run(tier, seed):
     cov = {
         "evaluations": int(st.get("named_statements", 0)),
         "distinct_nontrivial": len(col.sets.get("templates", ())) + len(col.sets.get("first_use_orders", ())),
-        "rule": "one evaluation = one statement of one catalogue template (29 templates: literal text, {{ }} escapes next to, around and directly after "
-                "placeholders, names with and without specs, 1..26 arguments, a template with a newline, LOGJ_ generated templates; each carries its "
+        "rule": "one evaluation = one statement of one catalogue template (33 templates: literal text, {{ }} escapes next to, around and directly after "
+                "placeholders, names with and without specs, 1..26 arguments, a template with a newline, LOGJ_ generated templates, templates whose string values hold control bytes (also single bytes of the internal value separator), DEL, bytes >= 0x80, quotes and backslashes, judged against an independent \\xHH sanitiser; each carries its "
                 "positional form, name list and spec list from its own construction) with random values; the first round uses every template once in "
                 "an order shuffled per seed (the backend caches the parsed template per format string). Judged in the harness: message = "
                 "fmtquill::format(positional, args), one (name, value formatted with its own spec) pair per argument in order; judged by the driver "
@@ -93,7 +97,7 @@ def run(tier, seed):
         "json_lines_parsed_and_matched": json_checked,
     }
     return core.finish(PROP, "exploration", tier, seed, t0, col, cov, [
-        "values are restricted to characters that need neither JSON nor hex escaping", "bundled fmt is the trusted base for formatting one value"])
+        "the JSON line is judged only for statements whose values need no JSON escaping (hex-escaped bytes contain a backslash); text and key/value pairs are judged for all", "bundled fmt is the trusted base for formatting one value"])
 
 
 def replay(path):
